@@ -573,6 +573,8 @@ class Flow:
         if isinstance(s, ast.Try):
             e0 = dict(env)
             t = self.block(s.body, env, conds)
+            if not t and s.orelse:
+                t = self.block(s.orelse, env, conds)  # `else:` continues the path on which the body raised nothing
             for h in s.handlers:
                 eh = dict(e0)
                 th = self.block(h.body, eh, conds)
